@@ -183,7 +183,7 @@ CLAIMED = {
         technique='Lean 4 proof (signomial algebra with symbolic coefficients) + model/implementation correspondence check',
         design_ref='DESIGN.md 4/C04'),
     'C19': dict(
-        text='PARTIAL (what stays outside: the optimisation-based presolve answers and kernel_basis() are inputs; for conditional cones the heuristic reduction is the known finding F10; equality of solver VALUES is audited). The exclusion of definitely-negative indices from every cover and the restriction of AGE cones to possibly-negative indices is PROVED lossless on R^n (Props/C19Sign: sign_presolve_lossless / _sound - Murray-Chandrasekaran-Wierman Thm 2 / Cor 5 - from a function-level reduction by induction on the number of AGE summands and the exactness of the certificate, C06.ordAge_exact). Theorems about the Lean model of the SAGE row generators '
+        text='PARTIAL (what stays outside: the optimisation-based presolve answers and kernel_basis() are inputs; for conditional cones the heuristic reduction is the known finding F10; equality of solver VALUES is audited). The exclusion of definitely-negative indices from every cover and the restriction of AGE cones to possibly-negative indices is PROVED lossless on R^n (Props/C19Sign: sign_presolve_lossless / _sound - Murray-Chandrasekaran-Wierman Thm 2 / Cor 5 - from a function-level reduction by induction on the number of AGE summands and the exactness of the certificate, C06.ordAge_exact), and composed with the two other automatic reductions ON THE EXECUTABLE COVER HELPER (Props/C19Ordinary: defaultEch_covers_ordinary, ordFinal_lossless, model_ordinary_covers_lossless: what is certified with full covers is certified with the automatic covers, for pairwise distinct exponent rows). Theorems about the Lean model of the SAGE row generators '
              'with the five settings as inputs: compact and epigraph dual rows have the same feasible set (projection off the epigraph '
              'variables), forced equality of the AGE sum is equivalent to the inequality form exactly because equality is only demanded '
              'at reached indices, a trivial kernel forces nu = 0 (exact elimination), the sign-pattern cover simplification is lossless for nonnegative '
